@@ -26,6 +26,9 @@ import traceback
 from . import bootstrap
 
 VERIF = bootstrap.VERIF
+# where evidence/ and replays/ are written; sensitivity runs against a scratch tree
+# (VERIF_REPO=...) point this elsewhere so the committed evidence is never overwritten
+OUT = os.environ.get("VERIF_OUT", VERIF)
 WORK = os.path.join(VERIF, ".work")
 CHECKS = {
     "C01": "checks.c01_lammps_table", "C02": "checks.c02_dlpoly_table", "C03": "checks.c03_setfl",
@@ -111,6 +114,22 @@ def load_module(pid):
 
 
 def _hyp_run(mod, tier, seed, examples, col, deadline_s=None):
+    """run the module's strategy; modules may stratify generation by providing
+    strata(tier) -> [(name, strategy, weight)]: each stratum gets its share of the
+    example budget and its own derived seed, so coverage of every stratum is by
+    construction rather than left to Hypothesis' novelty search"""
+    if hasattr(mod, "strata"):
+        strata = mod.strata(tier)
+        tot = float(sum(w for _, _, w in strata))
+        hit = False
+        for i, (name, strat, w) in enumerate(strata):
+            n = max(1, int(round(examples * w / tot)))
+            hit = _hyp_run_one(mod, strat, seed * 101 + i, n, col, deadline_s) or hit
+        return hit
+    return _hyp_run_one(mod, mod.strategy(tier), seed, examples, col, deadline_s)
+
+
+def _hyp_run_one(mod, strategy, seed, examples, col, deadline_s=None):
     import hypothesis
     from hypothesis import given, settings, HealthCheck, Phase
     t_end = None if deadline_s is None else time.time() + deadline_s
@@ -120,7 +139,7 @@ def _hyp_run(mod, tier, seed, examples, col, deadline_s=None):
     @settings(max_examples=examples, database=None, deadline=None, derandomize=False,
               suppress_health_check=list(HealthCheck), phases=[Phase.generate],
               report_multiple_bugs=False)
-    @given(mod.strategy(tier))
+    @given(strategy)
     def prop(case):
         if t_end is not None and time.time() > t_end:
             state["budget_hit"] = True
@@ -196,7 +215,7 @@ def finish(pid, mod, tier, seed, col, t0, budget_hit=False):
     new_violation = False
     lines = []
     viol_count = 0
-    os.makedirs(os.path.join(VERIF, "replays", pid), exist_ok=True)
+    os.makedirs(os.path.join(OUT, "replays", pid), exist_ok=True)
     for bucket in sorted(col.buckets):
         b = col.buckets[bucket]
         k = match_known(known, pid, bucket)
@@ -224,7 +243,7 @@ def finish(pid, mod, tier, seed, col, t0, budget_hit=False):
         except Exception:
             detail = b["detail"]
         path = os.path.join("replays", pid, "%s.json" % case_hash({"b": bucket, "c": case}))
-        with open(os.path.join(VERIF, path), "w") as f:
+        with open(os.path.join(OUT, path), "w") as f:
             json.dump({"property": pid, "bucket": bucket, "detail": detail, "case": case,
                        "seed": seed, "tier": tier}, f, indent=1, sort_keys=True)
         lines.append("VIOLATION property=%s replay=%s" % (pid, path))
@@ -255,20 +274,24 @@ def finish(pid, mod, tier, seed, col, t0, budget_hit=False):
         "coverage": cov, "assumptions": list(getattr(mod, "ASSUMPTIONS", [])),
         "wall_s": round(time.time() - t0, 2), "violations": viol_count,
     }
-    os.makedirs(os.path.join(VERIF, "evidence"), exist_ok=True)
-    with open(os.path.join(VERIF, "evidence", pid + ".json"), "w") as f:
+    os.makedirs(os.path.join(OUT, "evidence"), exist_ok=True)
+    with open(os.path.join(OUT, "evidence", pid + ".json"), "w") as f:
         json.dump(ev, f, indent=1, sort_keys=True, default=str)
     for ln in lines:
         print(ln)
     print("%s tier=%s seed=%d evaluations=%d distinct_nontrivial=%d skipped=%d buckets=%d wall=%.1fs" % (
         pid, tier, seed, col.evaluations, nt, col.skipped, len(col.buckets), time.time() - t0))
+    if new_violation:
+        # a reproduced violation stands on its own replay file; distribution floors only
+        # guard against vacuous *passes*
+        return 1
     if harness_err:
         print("HARNESS-ERROR: " + harness_err)
         return 2
     if nt < 2 or not col.samples:
         print("HARNESS-ERROR: fewer than 2 distinct non-trivial cases")
         return 2
-    return 1 if new_violation else 0
+    return 0
 
 
 def replay(pid, path):
